@@ -169,8 +169,8 @@ INSTRUCTIONS = [
     Instruction(mnemonic="SUBA", mode=Mode(imm=0x80, imm_sz=2, dir=0x90, dir_sz=2, ind=0xA0, ind_sz=2, ext=0xB0, ext_sz=3)),
     Instruction(mnemonic="SUBB", mode=Mode(imm=0xC0, imm_sz=2, dir=0xD0, dir_sz=2, ind=0xE0, ind_sz=2, ext=0xF0, ext_sz=3)),
     Instruction(mnemonic="SUBD", mode=Mode(imm=0x83, imm_sz=3, dir=0x93, dir_sz=2, ind=0xA3, ind_sz=2, ext=0xB3, ext_sz=3), is_16_bit=True),
-    Instruction(mnemonic="SWI", mode=Mode(inh=0x3F, imm_sz=1)),
-    Instruction(mnemonic="SYNC", mode=Mode(inh=0x13, imm_sz=1)),
+    Instruction(mnemonic="SWI", mode=Mode(inh=0x3F, inh_sz=1)),
+    Instruction(mnemonic="SYNC", mode=Mode(inh=0x13, inh_sz=1)),
     Instruction(mnemonic="TFR", mode=Mode(imm=0x1F, imm_sz=2), is_special=True),
     Instruction(mnemonic="TSTA", mode=Mode(inh=0x4D, inh_sz=1)),
     Instruction(mnemonic="TSTB", mode=Mode(inh=0x5D, inh_sz=1)),
